@@ -7,9 +7,12 @@
 package ucon
 
 import (
+	"crypto/ecdsa"
 	"math/big"
 
 	"github.com/youchainhq/go-youchain/common"
+	"github.com/youchainhq/go-youchain/consensus"
+	"github.com/youchainhq/go-youchain/params"
 )
 
 // VerifChoose calls the real choose(hash, w, p).
@@ -30,4 +33,23 @@ func VerifComputePriority(hash common.Hash, j *big.Int) common.Hash {
 // VerifMaxVrfHashValue returns a copy of the package constant 2^256-1 used as the divisor of the VRF output.
 func VerifMaxVrfHashValue() *big.Int {
 	return new(big.Int).Set(maxVrfHashValue)
+}
+
+// VerifC04Server is a Server reduced to what its credential verifiers read: a chain reader (look-back headers and
+// validator readers), the current protocol parameters and the Server's own (round, roundIndex). The real
+// Server.verifyPriority / Server.verifySortition run.
+type VerifC04Server struct{ S *Server }
+
+func NewVerifC04Server(chain consensus.ChainReader, yp *params.YouParams, round *big.Int, roundIndex uint32) *VerifC04Server {
+	return &VerifC04Server{S: &Server{chain: chain, currRoundParams: yp, currentRound: round, roundIndex: roundIndex}}
+}
+
+// VerifyPriority is the real Server.verifyPriority (the VerifyPriorityFn of the Proposal handler).
+func (w *VerifC04Server) VerifyPriority(pub *ecdsa.PublicKey, data *ConsensusCommon) error {
+	return w.S.verifyPriority(pub, data)
+}
+
+// VerifySortition is the real Server.verifySortition (the VerifySortitionFn of the Voter).
+func (w *VerifC04Server) VerifySortition(pub *ecdsa.PublicKey, data *SortitionData, lb params.LookBackType) error {
+	return w.S.verifySortition(pub, data, lb)
 }
